@@ -5,6 +5,7 @@ import (
 	"math"
 	"strings"
 	"time"
+	"verif/pbt/evid"
 
 	"github.com/pip-services3-gox/pip-services3-expressions-gox/calculator/variables"
 	"github.com/pip-services3-gox/pip-services3-expressions-gox/variants"
@@ -327,3 +328,44 @@ func time64(ns int64) time.Duration { return time.Duration(ns) }
 func unixUTC(sec, nsec int64) time.Time { return time.Unix(sec, nsec).UTC() }
 
 var _ = math.Pi
+
+// aliasProbe: a returned value belongs to the caller. Writing into it must not change what the same call returns
+// next time, nor the library's shared Null constant (a result that *is* one of the arguments is left alone).
+func aliasProbe(v *variants.Variant, args []*variants.Variant, again func() (*variants.Variant, error, *evid.Fail)) *evid.Fail {
+	if v == nil {
+		return nil
+	}
+	var within func(a *variants.Variant) bool
+	within = func(a *variants.Variant) bool {
+		if a == v {
+			return true
+		}
+		if a != nil && a.Type() == variants.Array {
+			for _, e := range a.AsArray() {
+				if within(e) {
+					return true
+				}
+			}
+		}
+		return false
+	}
+	for _, a := range args {
+		if within(a) {
+			return nil // an argument handed back (or an element of an array argument: indexing returns the element itself)
+		}
+	}
+	first := fromVariant(v).String()
+	v.SetAsString("changed by the caller")
+	if !variants.Empty.IsNull() {
+		variants.Empty.Clear() // repaired for the cases that follow
+		return evid.F("result-aliased:shared-null-constant", "the returned value is the shared variants.Empty object: writing into the result turned the library's Null constant into a String")
+	}
+	v2, err2, bad := again()
+	if bad != nil || err2 != nil || v2 == nil {
+		return nil
+	}
+	if second := fromVariant(v2).String(); second != first {
+		return evid.F("result-aliased", "the first call returned %s; after the caller wrote into that result the same call returns %s", first, second)
+	}
+	return nil
+}
